@@ -21,6 +21,11 @@ Model side: the state (raw branch names in ls-remote order, tags, the ancestry a
 a name) and the job, one line per job, through the compiled driver (`C20 ...`, lean/BertE/Drv/C20.lean).
 
 Oracle: an independent Python statement of the property text on the real observation (see `oracle`).
+
+A refusal block (harness/c20_refuse.py) runs rebuild_queues, delete_queues and create_branch (nested rebuild) on states
+with 2-3 queued pull requests while the git server refuses exactly ONE ref of the job's pushes, once (first attempt)
+and always - every ref in turn; a job that does not answer JobSuccess must have changed nothing and re-submitted
+nothing (keys `push-refused/...`). No model line: the model assumes a remote that accepts (ASSUMPTIONS).
 """
 import json
 import os
@@ -55,6 +60,7 @@ TRUSTED = [
     'restoration of refs between jobs), harness/system.py, harness/histories.py (state-reaching histories), '
     'harness/c02_faults.py (the crash injector that kills a delete_branch job between the push of the archive tag and '
     'the removal of the branch)',
+    'harness/c20_refuse.py (an `update` hook in the scratch bare repository that refuses one ref name, once or always)',
 ]
 
 RULE = ('repository states reached by seeded histories (8 cascade templates of C01 + base tag 4.2.17.0, a hotfix branch '
@@ -992,26 +998,42 @@ def correspondence(ctx):
     collect(res, replay_corpus(use_model, base))
     nres = (2 if ctx.tier == 'quick' else 12) * len(resume_combos()) * ctx.scale
     import time
+    from . import c20_refuse
     with Pool(common.NCPU) as pool:
         t0 = time.time()
+        refuse_async = c20_refuse.submit(pool, ctx, base)      # shares the pool with the states below
         outs = pool.map(_work, [(ctx.seed, i, use_model, base, None) for i in range(n)], chunksize=1)
         t1 = time.time()
         routs = pool.map(_work_resume, [(ctx.seed, j, use_model, base) for j in range(nres)], chunksize=1)
         t2 = time.time()
+        refuse_outs = refuse_async.get()
+        t2b = time.time()
     collect(res, outs)
     collect(res, routs)
+    c20_refuse.collect(res, refuse_outs)
     res.extra['resume_states'] = nres
     # the known findings of C20 are OBSERVED on the real code by every run (real BertE + mock host + real git): the
     # oracle failure with the finding's key is recorded only while the real code shows the defect (harness/c20_witness.py)
     from . import c20_witness
     t3 = time.time()
     c20_witness.phase(res)
-    res.extra['wall_s_by_part'] = {'history states': round(t1 - t0, 1), 'resume states': round(t2 - t1, 1),
+    res.extra['wall_s_by_part'] = {'history states (refusal units in the same pool)': round(t1 - t0, 1),
+                                   'resume states': round(t2 - t1, 1),
+                                   'waiting for the refusal units after the states': round(t2b - t2, 1),
+                                   'refusal units, summed over the workers': round(sum(o.get('seconds', 0)
+                                                                                       for o in refuse_outs), 1),
                                    'witnesses of known findings': round(time.time() - t3, 1)}
     res.rule += (' || WITNESS PHASE (harness/c20_witness.py): the two known findings of C20 run on the real BertE + mock '
                  'host + real git on every check (delete_branch of a hotfix branch deletes the queue of the stabilization '
                  'branch of that version; rebuild_queues drops a pull request queued on development/x.y only when '
                  'hotfix, stabilization and development queues of x.y coexist)')
+    res.rule += (' || REFUSAL BLOCK (harness/c20_refuse.py): states with 2-3 queued pull requests (3 scripted: three '
+                 'versions / stabilization + hotfix queue / two on the hotfix queue; seeded: cascade templates of C01, hotfix '
+                 'branch added to half) x {rebuild_queues, delete_queues, create_branch of a newer development branch = '
+                 'nested rebuild} x every ref the job changes (scripted; 4 sampled on seeded states) x the git server '
+                 'refuses that ONE ref {once = first attempt only, always}; oracle: a job that does not answer JobSuccess '
+                 'changed no ref and re-submitted nothing, one that does removed every q/* branch, nothing else, and '
+                 '(rebuild) re-submitted exactly the queued pull requests in queue order')
     return res
 
 
@@ -1020,6 +1042,9 @@ def replay(ctx, payload):
     if isinstance(inp, dict) and inp.get('phase') == 'witness':
         from . import c20_witness
         return c20_witness.phase(Result(), only=inp.get('which'))
+    from . import c20_refuse
+    if c20_refuse.is_refusal_input(inp):
+        return c20_refuse.replay(ctx, inp)
     h = {'cfg': inp['cfg'], 'events': inp['events'], 'jobs': inp['jobs']}
     res = Result()
     collect(res, [play_case(h, 'replay', ctx.model is not None)])
